@@ -2,13 +2,189 @@
    comparison, bitwise operations and conversions are exact.
    Models: GV.Num.Model (IM: mirror of runtime/arith.go, comp.go, bitwise.go,
    numconv.go, lib/mathlib), GV.Num.Spec (S: the manual's definitions over Z
-   and over the exact value of a float). *)
-From Coq Require Import ZArith List Bool.
-From GV Require Import Base.W64 Base.F64 Num.Model Num.Spec Num.IntProofs.
+   and over the exact value (±m·2^e) of a float).  int64 = Z in [-2^63,2^63)
+   (in64), float64 = Flocq binary64 with one NaN.
+   Axioms: none of our own.  The theorems that mention real numbers depend on
+   the Coq standard library's classical reals (Classical_Prop.classic,
+   ClassicalDedekindReals.sig_not_dec, sig_forall_dec,
+   FunctionalExtensionality.functional_extensionality_dep) through Flocq. *)
+From Coq Require Import ZArith Reals List Bool.
+From Flocq Require Import Core.Core IEEE754.BinarySingleNaN.
+From GV Require Import Base.W64 Base.F64 Num.Model Num.Spec Num.IntProofs Num.MixedCmp Num.CmpOrder Num.ConvProofs.
 Open Scope Z_scope.
 
-(* Integer + - * and unary minus wrap around modulo 2^64. *)
+(* ---- integer arithmetic wraps around modulo 2^64 ---- *)
 Theorem C02_add_int_spec : forall a b,
   exists r, add (NInt a) (NInt b) = NInt r /\ in64 r /\ r mod 2 ^ 64 = (a + b) mod 2 ^ 64 /\ r = s_add_int a b.
 Proof. exact add_int_spec. Qed.
 Print Assumptions C02_add_int_spec.
+
+Theorem C02_sub_int_spec : forall a b,
+  exists r, sub (NInt a) (NInt b) = NInt r /\ in64 r /\ r mod 2 ^ 64 = (a - b) mod 2 ^ 64 /\ r = s_sub_int a b.
+Proof. exact sub_int_spec. Qed.
+Print Assumptions C02_sub_int_spec.
+
+Theorem C02_mul_int_spec : forall a b,
+  exists r, mul (NInt a) (NInt b) = NInt r /\ in64 r /\ r mod 2 ^ 64 = (a * b) mod 2 ^ 64 /\ r = s_mul_int a b.
+Proof. exact mul_int_spec. Qed.
+Print Assumptions C02_mul_int_spec.
+
+Theorem C02_unm_int_spec : forall a,
+  exists r, unm (NInt a) = NInt r /\ in64 r /\ r mod 2 ^ 64 = (- a) mod 2 ^ 64 /\ r = s_unm_int a.
+Proof. exact unm_int_spec. Qed.
+Print Assumptions C02_unm_int_spec.
+
+(* ---- floor division and modulo (Z's / and mod are floor division and its remainder) ---- *)
+Theorem C02_floordiv_int_spec : forall a b, in64 a -> in64 b -> b <> 0 ->
+  floordivInt a b = wrap64 (a / b).
+Proof. exact floordiv_int_spec. Qed.
+Print Assumptions C02_floordiv_int_spec.
+
+Theorem C02_floordiv_int_floor : forall a b, in64 a -> in64 b -> b <> 0 -> ~ (a = minint /\ b = -1) ->
+  floordivInt a b = a / b.
+Proof. exact floordiv_int_floor. Qed.
+Print Assumptions C02_floordiv_int_floor.
+
+Theorem C02_mod_int_spec : forall a b, in64 a -> in64 b -> b <> 0 -> modInt a b = a mod b.
+Proof. exact mod_int_spec. Qed.
+Print Assumptions C02_mod_int_spec.
+
+(* the result of % has the sign of the divisor, is smaller in magnitude, and a = b*(a//b) + a%b *)
+Theorem C02_mod_int_props : forall a b, in64 a -> in64 b -> b <> 0 ->
+  let r := modInt a b in
+  in64 r /\ (0 < b -> 0 <= r < b) /\ (b < 0 -> b < r <= 0) /\ a = b * (a / b) + r.
+Proof. exact mod_int_props. Qed.
+Print Assumptions C02_mod_int_props.
+
+Theorem C02_div_by_zero_is_error : forall x,
+  idiv (NInt x) (NInt 0) = RErr EDivZero /\ mod_ (NInt x) (NInt 0) = RErr EModZero.
+Proof. exact div_by_zero_is_error. Qed.
+Print Assumptions C02_div_by_zero_is_error.
+
+(* ---- shifts: logical, >= 64 gives 0, negative displacement shifts the other way ---- *)
+Theorem C02_shl_spec : forall a n, in64 a -> in64 n -> shl64 a n = s_shl a n.
+Proof. exact shl_int_spec. Qed.
+Print Assumptions C02_shl_spec.
+
+Theorem C02_shr_spec : forall a n, in64 a -> in64 n -> shr64 a n = s_shr a n.
+Proof. exact shr_int_spec. Qed.
+Print Assumptions C02_shr_spec.
+
+Theorem C02_shift_props : forall a n, in64 a -> in64 n ->
+  (64 <= Z.abs n -> shl64 a n = 0 /\ shr64 a n = 0) /\
+  (n = 0 -> shl64 a n = a /\ shr64 a n = a) /\
+  (n <> minint -> shl64 a n = shr64 a (neg64 n)).
+Proof. exact shift_props. Qed.
+Print Assumptions C02_shift_props.
+
+(* ---- mixed integer/float comparison against the order of the reals ---- *)
+Theorem C02_lt_float_int_exact : forall n f, in64 n -> is_finite f = true ->
+  (ltFloatAndInt f n = true <-> (B2R f < IZR n)%R).
+Proof. exact ltFloatAndInt_exact. Qed.
+Print Assumptions C02_lt_float_int_exact.
+
+Theorem C02_le_int_float_exact : forall n f, in64 n -> is_finite f = true ->
+  (leIntAndFloat n f = true <-> (IZR n <= B2R f)%R).
+Proof. exact leIntAndFloat_exact. Qed.
+Print Assumptions C02_le_int_float_exact.
+
+Theorem C02_eq_mixed_exact : forall n f, in64 n -> is_finite f = true ->
+  (equalIntAndFloat n f = true <-> IZR n = B2R f).
+Proof. exact equalIntAndFloat_exact. Qed.
+Print Assumptions C02_eq_mixed_exact.
+
+(* NOT theorems of the code as it stands: n < f and f <= n are wrong when f = 2^63
+   and float64(n) rounds up to 2^63.  cmp_defect n f = (2^63-512 <=? n) && (f == 2^63). *)
+Theorem C02_lt_mixed_exact_refuted :
+  exists n f, in64 n /\ is_finite f = true /\ (IZR n < B2R f)%R /\ ltIntAndFloat n f = false.
+Proof. exact ltIntAndFloat_exact_refuted. Qed.
+Print Assumptions C02_lt_mixed_exact_refuted.
+
+Theorem C02_lt_mixed_exact_partial : forall n f, in64 n -> is_finite f = true -> cmp_defect n f = false ->
+  (ltIntAndFloat n f = true <-> (IZR n < B2R f)%R).
+Proof. exact ltIntAndFloat_exact_partial. Qed.
+Print Assumptions C02_lt_mixed_exact_partial.
+
+Theorem C02_le_mixed_exact_refuted :
+  exists n f, in64 n /\ is_finite f = true /\ ~ (B2R f <= IZR n)%R /\ leFloatAndInt f n = true.
+Proof. exact leFloatAndInt_exact_refuted. Qed.
+Print Assumptions C02_le_mixed_exact_refuted.
+
+Theorem C02_le_mixed_exact_partial : forall n f, in64 n -> is_finite f = true -> cmp_defect n f = false ->
+  (leFloatAndInt f n = true <-> (B2R f <= IZR n)%R).
+Proof. exact leFloatAndInt_exact_partial. Qed.
+Print Assumptions C02_le_mixed_exact_partial.
+
+(* infinities and NaN rows *)
+Theorem C02_cmp_nonfinite : forall n, in64 n ->
+  ltIntAndFloat n (finf false) = true /\ leIntAndFloat n (finf false) = true /\
+  ltFloatAndInt (finf false) n = false /\ leFloatAndInt (finf false) n = false /\
+  equalIntAndFloat n (finf false) = false /\
+  ltIntAndFloat n (finf true) = false /\ leIntAndFloat n (finf true) = false /\
+  ltFloatAndInt (finf true) n = true /\ leFloatAndInt (finf true) n = true /\
+  equalIntAndFloat n (finf true) = false /\
+  ltIntAndFloat n fnan = false /\ leIntAndFloat n fnan = false /\
+  ltFloatAndInt fnan n = false /\ leFloatAndInt fnan n = false /\
+  equalIntAndFloat n fnan = false.
+Proof. exact cmp_nonfinite. Qed.
+Print Assumptions C02_cmp_nonfinite.
+
+(* S (the executable spec used by the oracle) is the order of the reals *)
+Theorem C02_spec_cmp_is_real_order : forall n f, is_finite f = true ->
+  s_cmp_int_float n f = Some (Rcompare (IZR n) (B2R f)).
+Proof. exact s_cmp_int_float_correct. Qed.
+Print Assumptions C02_spec_cmp_is_real_order.
+
+(* golua's < <= == on any two numbers coincide with S outside the defect class *)
+Theorem C02_cmp_im_is_spec_partial : forall x y, num_wf x -> num_wf y -> num_defect x y = false ->
+  num_lt x y = s_lt x y /\ num_le x y = s_le x y /\ num_eq x y = s_eq x y.
+Proof. exact cmp_im_is_spec_partial. Qed.
+Print Assumptions C02_cmp_im_is_spec_partial.
+
+(* ---- comparison is a consistent order ---- *)
+Theorem C02_compare_total_partial : forall x y, num_wf x -> num_wf y ->
+  num_is_nan x = false -> num_is_nan y = false -> num_defect x y = false ->
+  exactly_one (num_lt x y) (num_eq x y) (num_lt y x).
+Proof. exact compare_total_partial. Qed.
+Print Assumptions C02_compare_total_partial.
+
+Theorem C02_compare_total_refuted :
+  exists x y, num_wf x /\ num_wf y /\ num_is_nan x = false /\ num_is_nan y = false /\
+    num_lt x y = false /\ num_eq x y = false /\ num_lt y x = false.
+Proof. exact compare_total_refuted. Qed.
+Print Assumptions C02_compare_total_refuted.
+
+Theorem C02_le_iff_lt_or_eq_partial : forall x y, num_wf x -> num_wf y -> num_defect x y = false ->
+  num_le x y = num_lt x y || num_eq x y.
+Proof. exact le_iff_lt_or_eq_partial. Qed.
+Print Assumptions C02_le_iff_lt_or_eq_partial.
+
+Theorem C02_le_iff_lt_or_eq_refuted :
+  exists x y, num_wf x /\ num_wf y /\ num_le x y = true /\ num_lt x y = false /\ num_eq x y = false.
+Proof. exact le_iff_lt_or_eq_refuted. Qed.
+Print Assumptions C02_le_iff_lt_or_eq_refuted.
+
+(* ---- float -> integer conversion: exactly the floats with an integer value in range ---- *)
+Theorem C02_float_to_int_spec : forall f z,
+  FloatToInt f = Some z <-> (is_finite f = true /\ in64 z /\ IZR z = B2R f).
+Proof. exact float_to_int_exact. Qed.
+Print Assumptions C02_float_to_int_spec.
+
+Theorem C02_float_to_int_is_S : forall f, FloatToInt f = s_float_to_int f.
+Proof. exact float_to_int_spec. Qed.
+Print Assumptions C02_float_to_int_is_S.
+
+Theorem C02_bitwise_requires_int : forall f x y, bitop f x y = s_bitop f x y.
+Proof. exact bitwise_requires_int. Qed.
+Print Assumptions C02_bitwise_requires_int.
+
+Theorem C02_mixed_arith_converts : forall a g, in64 a ->
+  add (NInt a) (NFlt g) = NFlt (fadd (of_int a) g) /\
+  sub (NInt a) (NFlt g) = NFlt (fsub (of_int a) g) /\
+  mul (NInt a) (NFlt g) = NFlt (fmul (of_int a) g) /\
+  div (NInt a) (NFlt g) = NFlt (fdiv (of_int a) g) /\
+  div (NInt a) (NInt a) = NFlt (fdiv (of_int a) (of_int a)) /\
+  B2R (of_int a) = round radix2 fexp64 ZnearestE (IZR a) /\
+  (Z.abs a <= 2 ^ 53 -> B2R (of_int a) = IZR a).
+Proof. exact mixed_arith_converts. Qed.
+Print Assumptions C02_mixed_arith_converts.
